@@ -57,6 +57,17 @@ def systematic():
     return items
 
 
+def crate_configs(tier):
+    return [{"name": ID.lower()}, {"name": ID.lower() + "probe", "kind": "genprobe"}]
+
+
+def query_in_config(cfg, kind, args):
+    return (kind == "struct") == (cfg.get("kind") == "genprobe")
+
+
+probe_command = S.struct_probe_command
+
+
 def build_corpus(tier, rng):
     c = Corpus(ID)
     thorough = tier == "thorough"
@@ -87,6 +98,11 @@ def build_corpus(tier, rng):
         k = c.add_def(it, family=fam.split(":")[0], derives=derives, info=info)
         vals = RR.sample_values(it)
         c.meta[k]["vals"] = vals
+        c.add_q(k, "struct", ["Display"], note="structure")
+        if "AsRefStr" in derives:
+            c.add_q(k, "struct", ["AsRefStr"], note="structure")
+        if "EnumString" in derives:
+            c.add_q(k, "struct", ["EnumString"], note="structure")
         if "EnumString" in derives:
             for s, note in G.fromstr_inputs(it, info, rng, flipcap=(64 if thorough else 8), nrandom=(30 if thorough else 6)):
                 c.add_q(k, "fromstr", [S.hx(s)], note=note)
@@ -112,7 +128,13 @@ def render_def(k, it, meta, cfg):
     return S.render_strings(k, it, meta, cfg)
 
 
+def extra_coverage(corpus, tier):
+    return S.struct_coverage()
+
+
 def compare(corpus, k, kind, args, note, iobs, mobs, cfg):
+    if kind == "struct":
+        return S.compare_struct(corpus, k, iobs, mobs)
     if kind == "caprt":
         ok = iobs == mobs
         # the property's statement on the model's answer: a captured input prints back as itself
